@@ -267,7 +267,7 @@ def check(ctx: Ctx) -> None:
     dsplit = [s for s in cfg.stmts() if isinstance(s, ast.Assign) and 'date_str.split()' in src(s.value)]
     for s in dsplit:
         g = cfg.guard_literals_within(s, loop)
-        ok = any("' ' not in format_spec.date_format" in t and tr for t, tr in g)
+        ok = any("' ' in format_spec.date_format" in t and not tr for t, tr in g)
         ctx.check(ok, 'C05.R6', f, 'date-suffix', 'trailing text after the date is dropped only for date formats without blanks', f'date split under {sorted(g)}', s)
 
 
